@@ -124,7 +124,7 @@ static void do_jc(char **f, int nf)
   if (strchr(mode, 'a')) c.arith_code = TRUE;
   if (strchr(mode, 'o')) c.optimize_coding = TRUE;
   if (strchr(mode, 'l')) jpeg_enable_lossless(&c, psv, pt);
-  c.restart_interval = (unsigned)restart;
+  if (strchr(mode, 'R')) c.restart_in_rows = restart; else c.restart_interval = (unsigned)restart;
   if (strcmp(jfif, "-")) {
     int a, b, u, xd, yd;
     if (sscanf(jfif, "%d.%d.%d.%d.%d", &a, &b, &u, &xd, &yd) == 5) {
@@ -493,6 +493,155 @@ static void do_xfh(char **f, int nf)
   free(src);
 }
 
+/* rdall cfg hex : the marker-reader state at EVERY SOS of the file (buffered-image mode, jpeg_consume_input):
+   scan parameters, restart interval, quantisation / Huffman table slots in force, number of saved markers */
+static void put_view(struct jpeg_decompress_struct *d)
+{
+  int i, k; jpeg_saved_marker_ptr m; int nm = 0;
+  printf("view ");
+  for (i = 0; i < d->comps_in_scan; i++)
+    printf("%s%d.%d.%d", i ? "," : "", d->cur_comp_info[i]->component_index, d->cur_comp_info[i]->dc_tbl_no, d->cur_comp_info[i]->ac_tbl_no);
+  printf(";%d;%d;%d;%d ri=%u qt=", d->Ss, d->Se, d->Ah, d->Al, d->restart_interval);
+  for (k = 0; k < NUM_QUANT_TBLS; k++) {
+    if (d->quant_tbl_ptrs[k]) {
+      unsigned char b[2 * DCTSIZE2];
+      for (i = 0; i < DCTSIZE2; i++) { b[2 * i] = (unsigned char)(d->quant_tbl_ptrs[k]->quantval[i] >> 8); b[2 * i + 1] = (unsigned char)(d->quant_tbl_ptrs[k]->quantval[i] & 255); }
+      printf("%s%016llx", k ? "," : "", (unsigned long long)fnv(b, sizeof(b)));
+    } else printf("%s-", k ? "," : "");
+  }
+  for (i = 0; i < 2; i++) {
+    printf(i ? " ac=" : " dc=");
+    for (k = 0; k < NUM_HUFF_TBLS; k++) {
+      JHUFF_TBL *h = i ? d->ac_huff_tbl_ptrs[k] : d->dc_huff_tbl_ptrs[k];
+      if (h) {
+        unsigned char b[16 + 256]; int n = 0, j;
+        for (j = 1; j <= 16; j++) { b[j - 1] = h->bits[j]; n += h->bits[j]; }
+        if (n > 256) n = 256;
+        memcpy(b + 16, h->huffval, (size_t)n);
+        printf("%s%016llx", k ? "," : "", (unsigned long long)fnv(b, (size_t)(16 + n)));
+      } else printf("%s-", k ? "," : "");
+    }
+  }
+  for (m = d->marker_list; m; m = m->next) nm++;
+  printf(" nm=%d", nm);
+}
+static void do_rdall(char **f, int nf)
+{
+  struct jpeg_decompress_struct d; struct jpeg_error_mgr je; unsigned char *buf; size_t n; const char *p; int rc, guard = 0;
+  jpeg_saved_marker_ptr m;
+  if (nf < 3) { puts("err usage"); return; }
+  buf = unhex(f[2], &n);
+  d.err = jpeg_std_error(&je); je.error_exit = my_exit; je.emit_message = my_emit; je.output_message = my_output;
+  if (setjmp(jb)) { printf(" || err %d %s\n", last_err, last_msg); jpeg_destroy_decompress(&d); free(buf); return; }
+  jpeg_create_decompress(&d);
+  jpeg_mem_src(&d, buf, (unsigned long)n);
+  p = f[1];
+  if (strcmp(p, "-")) while (*p) {
+    int code = (int)strtol(p, (char **)&p, 10); unsigned lim;
+    if (*p == ':') p++;
+    lim = (unsigned)strtoul(p, (char **)&p, 10);
+    if (*p == ',') p++;
+    jpeg_save_markers(&d, code, lim);
+  }
+  if (jpeg_read_header(&d, TRUE) != JPEG_HEADER_OK) { puts("err header"); jpeg_destroy_decompress(&d); free(buf); return; }
+  d.buffered_image = TRUE;
+  jpeg_start_decompress(&d);
+  put_view(&d);
+  for (;;) {
+    rc = jpeg_consume_input(&d);
+    if (rc == JPEG_REACHED_SOS) { printf(" | "); put_view(&d); }
+    else if (rc == JPEG_REACHED_EOI) break;
+    else if (rc == JPEG_SUSPENDED || ++guard > 10000000) { printf(" | stuck"); break; }
+  }
+  printf(" | end ri=%u dens=%d.%d.%d jfif=%d adobe=%d tr=%d |", d.restart_interval, d.density_unit, d.X_density, d.Y_density,
+         d.saw_JFIF_marker ? 1 : 0, d.saw_Adobe_marker ? 1 : 0, d.saw_Adobe_marker ? d.Adobe_transform : 0);
+  for (m = d.marker_list; m; m = m->next)
+    printf(" m %d %u %u %016llx ;", m->marker, m->original_length, m->data_length, (unsigned long long)fnv(m->data, m->data_length));
+  putchar('\n');
+  jpeg_destroy_decompress(&d); free(buf);
+}
+
+/* wst : jpeg_write_marker / jpeg_write_m_header / jpeg_write_icc_profile at every point of the compressor's life:
+   result per point: ok | err <JERR code name> */
+static const char *errname(int code)
+{
+  if (code == JERR_BAD_STATE) return "BAD_STATE";
+  if (code == JERR_BAD_LENGTH) return "BAD_LENGTH";
+  if (code == JERR_BUFFER_SIZE) return "BUFFER_SIZE";
+  return "OTHER";
+}
+static struct jpeg_compress_struct *wst_c;
+static int wst_try(int what, int len)
+{
+  /* returns 0 ok, else the error code; runs inside its own setjmp */
+  static unsigned char data[70000];
+  jmp_buf save; int rc = 0;
+  memcpy(save, jb, sizeof(jmp_buf));
+  if (setjmp(jb)) { rc = last_err; }
+  else {
+    if (what == 0) jpeg_write_marker(wst_c, JPEG_COM, data, (unsigned)len);
+    else if (what == 1) { int i; jpeg_write_m_header(wst_c, JPEG_APP0 + 5, (unsigned)len); for (i = 0; i < len; i++) jpeg_write_m_byte(wst_c, data[i]); }
+    else jpeg_write_icc_profile(wst_c, len ? data : NULL, (unsigned)len);
+  }
+  memcpy(jb, save, sizeof(jmp_buf));
+  return rc;
+}
+static void do_wst(char **f, int nf)
+{
+  /* wst mode what len : mode = s (scanlines) | r (raw data) | c (write_coefficients; needs src hex in f[4]) */
+  struct jpeg_compress_struct c; struct jpeg_error_mgr je; unsigned char *out = NULL; unsigned long outsz = 0;
+  int what, len, rc, y; unsigned char row[16 * 3]; JSAMPROW rp = row;
+  if (nf < 4) { puts("err usage"); return; }
+  what = atoi(f[2]); len = atoi(f[3]);
+  c.err = jpeg_std_error(&je); je.error_exit = my_exit; je.emit_message = my_emit; je.output_message = my_output;
+  if (setjmp(jb)) { printf(" fatal %d\n", last_err); jpeg_destroy_compress(&c); free(out); return; }
+  jpeg_create_compress(&c); wst_c = &c;
+  jpeg_mem_dest(&c, &out, &outsz);
+  c.image_width = 16; c.image_height = 16; c.input_components = 3; c.in_color_space = JCS_RGB;
+  jpeg_set_defaults(&c);
+  rc = wst_try(what, len); printf("created:gs=%d:%s", c.global_state, rc ? errname(rc) : "ok");
+  if (f[1][0] == 'r') c.raw_data_in = TRUE;
+  if (f[1][0] == 'r') { c.comp_info[0].h_samp_factor = c.comp_info[0].v_samp_factor = 1; }
+  jpeg_start_compress(&c, TRUE);
+  rc = wst_try(what, len); printf(" started:gs=%d:%s", c.global_state, rc ? errname(rc) : "ok");
+  memset(row, 77, sizeof(row));
+  if (f[1][0] == 's') {
+    jpeg_write_scanlines(&c, &rp, 1);
+    rc = wst_try(what, len); printf(" after1line:gs=%d:%s", c.global_state, rc ? errname(rc) : "ok");
+    for (y = 1; y < 16; y++) jpeg_write_scanlines(&c, &rp, 1);
+  } else {
+    static unsigned char plane[8][16]; JSAMPROW rows[8]; JSAMPARRAY planes[3]; int i;
+    for (i = 0; i < 8; i++) rows[i] = plane[i];
+    planes[0] = planes[1] = planes[2] = rows;
+    jpeg_write_raw_data(&c, planes, 8);
+    rc = wst_try(what, len); printf(" afterraw:gs=%d:%s", c.global_state, rc ? errname(rc) : "ok");
+    jpeg_write_raw_data(&c, planes, 8);
+  }
+  jpeg_finish_compress(&c);
+  rc = wst_try(what, len); printf(" finished:gs=%d:%s", c.global_state, rc ? errname(rc) : "ok");
+  putchar('\n');
+  jpeg_destroy_compress(&c); free(out);
+}
+
+/* xfm savemarkers flags dsticc srchex : ONE tj3Transform call with n = strlen(flags) transforms;
+   flags[i] = '1' means TJXOPT_COPYNONE for transform i */
+static void do_xfm(char **f, int nf)
+{
+  unsigned char *src, *dicc; size_t n, diccn; int opt, nt, i; tjhandle h; tjtransform t[8];
+  unsigned char *dst[8]; size_t dn[8];
+  if (nf < 5) { puts("err usage"); return; }
+  opt = atoi(f[1]); nt = (int)strlen(f[2]); if (nt > 8) nt = 8;
+  dicc = unhex(f[3], &diccn); src = unhex(f[4], &n);
+  h = tj3Init(TJINIT_TRANSFORM);
+  memset(t, 0, sizeof(t)); memset(dst, 0, sizeof(dst)); memset(dn, 0, sizeof(dn));
+  for (i = 0; i < nt; i++) { t[i].op = TJXOP_NONE; t[i].options = f[2][i] == '1' ? TJXOPT_COPYNONE : 0; }
+  if ((opt >= 0 && tj3Set(h, TJPARAM_SAVEMARKERS, opt) < 0) || (diccn && tj3SetICCProfile(h, dicc, diccn) < 0) ||
+      tj3Transform(h, src, n, nt, dst, dn, t) < 0) puts("err transform");
+  else { fputs("ok", stdout); for (i = 0; i < nt; i++) { putchar(' '); puthex(dst[i], dn[i]); } putchar('\n'); }
+  for (i = 0; i < nt; i++) tj3Free(dst[i]);
+  tj3Destroy(h); free(src); free(dicc);
+}
+
 int main(void)
 {
   char *line = NULL; size_t cap = 0; ssize_t len;
@@ -509,6 +658,9 @@ int main(void)
     else if (!strcmp(f[0], "tjrd")) do_tjrd(f, nf);
     else if (!strcmp(f[0], "xf")) do_xf(f, nf);
     else if (!strcmp(f[0], "xfh")) do_xfh(f, nf);
+    else if (!strcmp(f[0], "xfm")) do_xfm(f, nf);
+    else if (!strcmp(f[0], "rdall")) do_rdall(f, nf);
+    else if (!strcmp(f[0], "wst")) do_wst(f, nf);
     else puts("-");
     fflush(stdout);
   }
